@@ -29,7 +29,8 @@ CONSTANTS Labs, MaxT, Window, MaxOps, Cuts, PreCuts, Script, Acts, Kinds, ExTs, 
 
 VARIABLES segs, first, cp,
           series,    \* in-memory series: set of [ref, lab, last]
-          deleted,   \* DB.deleted: ref -> last segment the series record must be kept for
+          deleted,   \* DB.deleted: ref -> [seg: last segment the series record must be kept for,
+                     \*                      lt: newest sample time replayed for a duplicate ref (NEG: none)]
           nextRef,
           pend,      \* the open appender: [on, ser, smp, exs]
           acc,       \* ghost: samples / exemplars accepted by committed appenders
@@ -131,7 +132,9 @@ Rollback ==
 
 \* wlog.Checkpoint (no tombstone / metadata records in an agent WAL)
 FilterRec(rec, keep(_), m) ==
-  IF rec[1].k = "S" THEN SelectSeq(rec, LAMBDA e : keep(e.ref)) ELSE SelectSeq(rec, LAMBDA e : e.t >= m)
+  IF rec[1].k = "S" THEN SelectSeq(rec, LAMBDA e : keep(e.ref))
+  ELSE IF rec[1].k = "X" THEN SelectSeq(rec, LAMBDA e : e.t >= m /\ keep(e.ref))   \* dropped with its series record
+  ELSE SelectSeq(rec, LAMBDA e : e.t >= m)
 RECURSIVE FilterRecs(_, _, _)
 FilterRecs(recs, keep(_), m) ==
   IF recs = <<>> THEN <<>>
@@ -143,18 +146,20 @@ Truncate(m, k) ==
          L     == first + Len(segs0) - 1
          dead  == {s \in series : s.last < m}                        \* stripeSeries.GC
          rest  == series \ dead
-         del1  == [r \in DOMAIN deleted \cup Refs(dead) |-> IF r \in Refs(dead) THEN L ELSE deleted[r]]
+         del1  == [r \in DOMAIN deleted \cup Refs(dead) |-> IF r \in Refs(dead) THEN [seg |-> L, lt |-> NEG] ELSE deleted[r]]
          segs1 == Append(segs0, <<>>)
          last0 == L - 1
          last1 == first + ((last0 - first) * 2) \div 3
          ckpt  == last0 >= 0 /\ last1 > first
-         keep(id) == id \in Refs(rest) \/ (id \in DOMAIN del1 /\ del1[id] > last1)
+         \* keepSeriesInWALCheckpointFn(last, mint): by segment, and for duplicate refs also by the time of
+         \* their newest sample (the checkpoint keeps samples by time)
+         keep(id) == id \in Refs(rest) \/ (id \in DOMAIN del1 /\ (del1[id].seg > last1 \/ del1[id].lt >= m))
          inRecs == (IF cp.idx >= 0 THEN cp.recs ELSE <<>>) \o Flat([i \in 1..(last1 - first + 1) |-> segs1[i]]) IN
      /\ series' = rest
      /\ IF ckpt THEN /\ cp' = [idx |-> last1, recs |-> FilterRecs(inRecs, keep, m)]
                      /\ segs' = SubSeq(segs1, last1 - first + 2, Len(segs1))
                      /\ first' = last1 + 1
-                     /\ deleted' = [r \in {x \in DOMAIN del1 : del1[x] > last1} |-> del1[r]]
+                     /\ deleted' = [r \in {x \in DOMAIN del1 : del1[x].seg > last1 \/ del1[x].lt >= m} |-> del1[r]]
         ELSE segs' = segs1 /\ deleted' = del1 /\ UNCHANGED <<first, cp>>
      /\ hist' = Append(hist, [a |-> "Truncate", m |-> m, k |-> k, ckpt |-> ckpt, gc |-> Cardinality(dead),
                               first |-> IF ckpt THEN last1 + 1 ELSE first, last |-> L + 1])
@@ -170,11 +175,13 @@ StepR(st, e, cur) ==
            st1  == [st EXCEPT !.lastRef = Max2(@, e.ref)] IN
        IF same = {} THEN [st1 EXCEPT !.series = @ \cup {[ref |-> e.ref, lab |-> e.lab, last |-> 0]}]
        ELSE [st1 EXCEPT !.dup = SetF(@, e.ref, (CHOOSE s \in same : TRUE).ref),
-                        !.deleted = IF e.ref \in DOMAIN @ /\ @[e.ref] > cur THEN @ ELSE SetF(@, e.ref, cur)]
+                        !.deleted = IF e.ref \in DOMAIN @
+                                    THEN (IF @[e.ref].seg > cur THEN @ ELSE SetF(@, e.ref, [seg |-> cur, lt |-> @[e.ref].lt]))
+                                    ELSE SetF(@, e.ref, [seg |-> cur, lt |-> NEG])]
   ELSE IF e.k \in {"D", "H"} THEN
        LET isDup == e.ref \in DOMAIN st.dup
-           st1 == IF isDup /\ e.ref \in DOMAIN st.deleted /\ st.deleted[e.ref] <= cur
-                  THEN [st EXCEPT !.deleted = SetF(@, e.ref, cur)] ELSE st
+           st1 == IF isDup /\ e.ref \in DOMAIN st.deleted /\ (st.deleted[e.ref].seg <= cur \/ st.deleted[e.ref].lt < e.t)
+                  THEN [st EXCEPT !.deleted = SetF(@, e.ref, [seg |-> Max2(@[e.ref].seg, cur), lt |-> Max2(@[e.ref].lt, e.t)])] ELSE st
            r == IF isDup THEN st.dup[e.ref] ELSE e.ref IN
        [st1 EXCEPT !.series = {IF s.ref = r /\ e.t > s.last THEN [s EXCEPT !.last = e.t] ELSE s : s \in @}]
   ELSE st
@@ -215,8 +222,6 @@ AcceptedKept == \A a \in acc : (a.k \in {"D", "H"} /\ a.t >= T) => Kept(Log, a)
 \* ... and every entry left in the log follows a series entry for its ref (C15 for the agent)
 RefClosed == RefClosedSeq(Log)
 
-\* KF-C48-1 (same root as KF-C15-2): wlog.Checkpoint keeps exemplars by time only
-OnlyExemplarOrphans == \A i \in Orphans(Log) : Log[i].k = "X"
 \* KF-C48-2: garbage collection does not know about samples pending in an open appender (and
 \* getOrCreate puts a new series in memory, with lastTs = MinInt64, before anything is logged): a
 \* truncation between Append and Commit removes the series with deleted[ref] = the current segment;
@@ -225,13 +230,11 @@ OnlyExemplarOrphans == \A i \in Orphans(Log) : Log[i].k = "X"
 LateSeries == \E i \in 1..Len(hist) : hist[i].a = "Truncate" /\ hist[i].gc > 0
               /\ \E j \in 1..(i - 1) : hist[j].a = "Append" /\ hist[j].res = "ok"
                    /\ ~\E c \in (j + 1)..(i - 1) : hist[c].a \in {"Commit", "Rollback"}
-\* KF-C48-3: a duplicate series record (the label set was garbage-collected, came back under a new ref,
-\* and a restart replayed both records) is kept "until the checkpoint passes its last segment"
-\* (deleted[ref].lastSegment > last), but the samples written under that ref are kept by *time*:
-\* a checkpoint that covers the segment drops the series record and keeps the newer samples.
-DupOrphans(L) == \A i \in Orphans(L) : L[i].k = "X" \/ L[i].ref \in dups
-RefClosedOrKF == RefClosed \/ DupOrphans(Log) \/ LateSeries
-AcceptedKeptOrKF == LateSeries \/ \A a \in acc : (a.k \in {"D", "H"} /\ a.t >= T) => (Kept(Log, a) \/ a.ref \in dups)
+\* (KF-C48-1, exemplars kept by time only, and KF-C48-3, duplicate series records kept by segment only while
+\* their samples are kept by time, are repaired: wlog.Checkpoint drops an exemplar with its series record and
+\* keepSeriesInWALCheckpointFn also looks at the newest sample time of a duplicate ref.  `dups` is kept as a ghost.)
+RefClosedOrKF == RefClosed \/ LateSeries
+AcceptedKeptOrKF == AcceptedKept \/ LateSeries
 
 \* the out-of-order rule, literally: an accepted sample is newer than the newest committed sample of
 \* its label set minus the window -- unless the series had been garbage-collected and is created anew
@@ -260,7 +263,7 @@ Class ==
       cpS  == {cpE[i].ref : i \in {j \in 1..Len(cpE) : cpE[j].k = "S"}}
       out  == {<<segE[i].k, segE[i].ref \in cpS>> : i \in {j \in 1..Len(segE) : segE[j].k # "S" /\ segE[j].ref \notin Refs(series')}}
       acts == {hist'[i].a : i \in 1..Len(hist')}       \* which kinds of steps the history contains
-      delNow == {deleted'[r] - first' : r \in DOMAIN deleted'}   \* how far ahead of the first segment series records are kept
+      delNow == {<<deleted'[r].seg - first', deleted'[r].lt >= T'>> : r \in DOMAIN deleted'}   \* how far ahead of the first segment series records are kept
   IN IF st.a = "Truncate" THEN <<"Truncate", st.ckpt, st.gc > 0, orph, dup, delNow, kdel, edge, dep, out, pend.on, Cardinality(series'), acts>>
      ELSE IF st.a = "Restart" THEN <<"Restart", orph, dup, DOMAIN deleted' # {}, dep, cp.idx >= 0, nextRef' < nextRef>>
      ELSE IF st.a = "Append" THEN <<"Append", st.res, st.fresh, st.lit, st.k, dup, cp.idx >= 0, Len(pend.smp)>>
